@@ -28,7 +28,7 @@ fn main() {
     let anthem_build = std::env::var("AVM_ANTHEM_BUILD").map(PathBuf::from).unwrap_or_else(|_| verif_dir.join(".build/anthem"));
     let cfg = Config { prop: args[1].clone(), tier, seed, threads, verif_dir, anthem_build, replay, scale };
     // anthem panics inside guarded() calls are expected observations; keep stderr readable
-    std::panic::set_hook(Box::new(|_| {}));
+    avm::run::install_panic_hook();
     let code = avm::monitors::dispatch(&cfg);
     std::process::exit(code);
 }
